@@ -15,7 +15,15 @@ META = {
     "text": "Theorems (Coq): publication data generated for block e (context info = createFromPrevious of e's parent) "
             "delivered with a connecting block of proof into any block having e on its own chain within the settlement "
             "interval satisfies the contextual rules (both sides are the same function); an honest body is accepted by "
-            "the checks as coded; a chain of valid blocks is never refused. Tie to the code: always-accept oracle on "
+            "the checks as coded; a chain of valid blocks is never refused. Honest VTBs are a construction (model of "
+            "MockMiner: endorsed block = getAncestor of the containing block, BTC context = getBlocks down to the "
+            "nearest BTC block the chain references) proved valid (C19_honest_vtbs_valid, C19_honest_vtbs_buildable, "
+            "C19_known_vbk_parent_closed), so C19_honest_block_accepted_full / _on_any_chain have no validity premise "
+            "about payloads; the settlement windows are exact and non-strict, height difference <= interval as in "
+            "AddEndorsement::Execute (C19_atv_accepted_iff_timely, C19_atv_window_exact, C19_vtb_window_exact, four "
+            "off-by-one _refuted), fork independent (C19_honest_atv_any_fork, C19_honest_atv_two_forks) and monotone "
+            "until the window closes (C19_atv_accept_transfers, C19_atv_accept_monotone_along_chain, "
+            "C19_atv_window_closes); C19_full_premises_satisfiable. Tie to the code: always-accept oracle on "
             "generated honest histories (every endorsable block incl. side forks, window boundaries, VBK/BTC forking, "
             "delivery through blocks and through the mempool), stateless checks, endorsement visible in "
             "containing/endorsedBy/blockOfProof lists, abort handler; extracted model vs library on every verdict.",
